@@ -1571,6 +1571,37 @@ func (t *c17T) forStmt(x *ast.ForStmt, rest []ast.Stmt, fall string) (string, er
 }
 
 func (t *c17T) rangeStmt(x *ast.RangeStmt, rest []ast.Stmt, fall string) (string, error) {
+	if kv, ok := x.Key.(*ast.Ident); t.mode == "res" && ok && x.Value == nil && x.Tok == token.DEFINE && kv.Name != "_" &&
+		strings.HasPrefix(t.typeOf(x.X), "[]") && !t.isOptSlice(x.X) {
+		// for i := range xs { ... }  =  for i := 0; i < len(xs); i++ { ... }
+		p, xs, err := t.expr(x.X)
+		if err != nil || len(p) > 0 {
+			return "", t.errf(x.X, "range over this expression")
+		}
+		vs := t.assigned(x.Body.List)
+		for _, v := range vs {
+			if v == kv.Name || v == xs {
+				return "", t.errf(nil, "the range variable or the slice is assigned in the body")
+			}
+		}
+		t.push()
+		t.declare(kv.Name, "int")
+		t.loopVars = append(t.loopVars, kv.Name)
+		t.loopFall = append(t.loopFall, "Ok "+c17Tup(vs))
+		body, err := t.stmts(x.Body.List, "Ok "+c17Tup(vs))
+		t.loopFall = t.loopFall[:len(t.loopFall)-1]
+		t.loopVars = t.loopVars[:len(t.loopVars)-1]
+		t.pop()
+		if err != nil {
+			return "", err
+		}
+		k, err := t.stmts(rest, fall)
+		if err != nil {
+			return "", err
+		}
+		pat := c17Pat(vs)
+		return "do " + strings.TrimPrefix(pat, "'") + " <- for_up 0%Z (sl_len " + xs + ") (fun " + kv.Name + " " + pat + " =>\n" + body + ") " + c17Tup(vs) + ";\n" + k, nil
+	}
 	if t.mode == "res" { // for i, v := range xs { ... }  =  for i := 0; i < len(xs); i++ { v := xs[i]; ... }
 		kv, ok1 := x.Key.(*ast.Ident)
 		vv, ok2 := x.Value.(*ast.Ident)
